@@ -68,7 +68,7 @@ def main(tier):
     # code -> spec: torsion complexes, large primes, multi-field, random complexes
     tdir = os.path.join(work, "traces")
     os.makedirs(tdir, exist_ok=True)
-    vf.run([b_rec, tdir, str(vf.seed()), "40" if tier == "quick" else "400"], ok_codes=(0, 3))
+    vf.run([b_rec, tdir, str(vf.seed()), "40" if tier == "quick" else "400", "36" if tier == "quick" else "240"], ok_codes=(0, 3))
     # crashes of the engine (recorded by the driver's parent process) are deviations of their own; the other events
     # are validated by TLC
     for fpath in sorted(glob.glob(os.path.join(tdir, "*.ndjson"))):
@@ -84,13 +84,17 @@ def main(tier):
         with open(fpath, "w") as f:
             f.write("\n".join(keep) + "\n")
     # shard the random trace for parallel validation
-    big = os.path.join(tdir, "pc_random.ndjson")
-    lines = open(big).read().splitlines()
-    os.remove(big)
     nsh = 6
-    for i in range(nsh):
-        with open(os.path.join(tdir, "pc_random_%d.ndjson" % i), "w") as f:
-            f.write("\n".join(lines[i::nsh]) + "\n")
+    for stem in ("pc_random", "pc_dense"):
+        big = os.path.join(tdir, stem + ".ndjson")
+        if not os.path.exists(big):
+            continue
+        lines = open(big).read().splitlines()
+        os.remove(big)
+        for i in range(nsh):
+            if lines[i::nsh]:
+                with open(os.path.join(tdir, "%s_%d.ndjson" % (stem, i)), "w") as f:
+                    f.write("\n".join(lines[i::nsh]) + "\n")
     files = sorted(glob.glob(os.path.join(tdir, "*.ndjson")))
     res = vf.validate_traces("Trace_PC", "Trace_PC.cfg", files, par=7, extra_java=("-Xss512m",), timeout=2400)
     nev = 0
@@ -103,7 +107,7 @@ def main(tier):
     ev.cov["traces_validated_against_impl"] += len(files)
     ev.parts["traces"] = {"files": len(files), "events_matched": nev,
                           "content": "RP^2 (6 vertices), Klein bottle (9 vertices), a 7-vertex 2-complex, random complexes on 5-8 vertices with "
-                                     "ties; p in {2,3,5,7,11,46337}; multi-field ranges [2,3] [2,5] [3,7] [2,11]; min_interval_length -1/0/1; "
+                                     "ties; complete graphs on 11-13 vertices with 90-120 random triangles over Z3/Z5/Z7 (many open classes at once); p in {2,3,5,7,11,46337}; multi-field ranges [2,3] [2,5] [3,7] [2,11]; min_interval_length -1/0/1; "
                                      "both values of persistence_dim_max", "spec": "Trace_PC.tla"}
     ev.sample({"trace_event_fields": "op, p, minlen, flag, dimK, cells[dim,val,bd], pairs[dim,b,d]"}, 3)
     ev.cov["evaluations"] = total + nev
